@@ -268,6 +268,10 @@ func fmtSpace(tier string) []gen.Gen {
 	var gs []gen.Gen
 	gs = append(gs, leaves...)
 	gs = append(gs, gen.Fixed()...)
+	// years the date's four digits cannot hold: to be refused with an error (a generator of their own - the
+	// random compositions and the other checks' value spaces are made of values the format can hold)
+	xt := gen.Gen{Name: "time.Time(extreme)", T: reflect.TypeOf(time.Time{}), Vals: gen.ExtremeTimes(), Leaf: "time.Time"}
+	gs = append(gs, xt, gen.Ptr(xt), gen.Slice(xt), gen.Iface(xt), gen.AnonStruct(xt))
 	byName := map[string]gen.Gen{}
 	for _, l := range leaves {
 		byName[l.Name] = l
